@@ -174,8 +174,9 @@ func drain(c py.Context) [][]string {
 // rendering
 
 type renderer struct {
-	worker int
-	kinds  map[string]string
+	worker  int
+	kinds   map[string]string
+	lateDir string // where the files of "late" modules are written: not on sys.path until the main program appends it
 }
 
 // concrete module name: private to the worker. py.RegisterModule is process-wide, and a module object that
@@ -217,6 +218,11 @@ func (r *renderer) stmt(importer string, idx int, s Stmt) string {
 		w("    vlog.log(" + I + ", " + ix + ", 'mod', " + q(s.T) + ", _k + 1, _s, vlog.same(" + name + ", " + q(T) + "))")
 	}
 	switch s.Form {
+	case "addpath":
+		// the directory of the "late" modules becomes part of this context's search path
+		w("    import sys")
+		w("    sys.path.append(" + q(r.lateDir) + ")")
+		w("    vlog.log(" + I + ", " + ix + ", 'addpath')")
 	case "import":
 		w("    import " + T)
 		modObs(T)
@@ -332,12 +338,13 @@ type world struct {
 }
 
 func prepare(worker int, dir string, rec *Rec) (*world, error) {
-	r := &renderer{worker: worker, kinds: rec.Kinds}
+	r := &renderer{worker: worker, kinds: rec.Kinds, lateDir: filepath.Join(dir, "late")}
 	w := &world{r: r, dir: dir}
 	old, _ := filepath.Glob(filepath.Join(dir, "*.py"))
 	for _, f := range old {
 		os.Remove(f)
 	}
+	os.RemoveAll(r.lateDir)
 	for m := range rec.Kinds {
 		w.mods = append(w.mods, m)
 	}
@@ -347,6 +354,11 @@ func prepare(worker int, dir string, rec *Rec) (*world, error) {
 		switch rec.Kinds[m] {
 		case "src":
 			if err := os.WriteFile(filepath.Join(dir, r.conc(m)+".py"), []byte(r.body(m, body)), 0o644); err != nil {
+				return nil, err
+			}
+		case "late":
+			os.MkdirAll(r.lateDir, 0o755)
+			if err := os.WriteFile(filepath.Join(r.lateDir, r.conc(m)+".py"), []byte(r.body(m, body)), 0o644); err != nil {
 				return nil, err
 			}
 		case "gosrc":
@@ -500,7 +512,7 @@ func action(exp []string, cls []string) (string, string) {
 		return "CatchInMain", "form=" + cls[1] + ",target=" + cls[2]
 	}
 	act := "BindNames"
-	if cls[2] == "missing" {
+	if cls[2] == "missing" || cls[2] == "unavailable" {
 		act = "MissingModule"
 	}
 	return act, "form=" + cls[1] + ",target=" + cls[2]
@@ -845,7 +857,7 @@ func main() {
 	rep.Extra["expected_log_entries_per_class"] = cnt.classes
 	rep.Extra["behaviour_matched_when_two_allowed"] = cnt.policies
 	rep.Extra["diverging_cases"] = cnt.diverging
-	rep.Extra["exhaustive_within"] = "families graph*/uniform/diamond/flat*/raise are enumerated completely; sample is a seeded sample of the family CfgOK"
+	rep.Extra["exhaustive_within"] = "families graph*/uniform/diamond/flat*/raise/modname/late are enumerated completely; sample is a seeded sample of the family CfgOK"
 	if total == 0 {
 		common.Inconclusive("property=C19 no case was generated")
 	}
@@ -856,6 +868,9 @@ func main() {
 				common.Inconclusive("property=C19 vacuous run: no %s statement met a %s target", form, tc)
 			}
 		}
+	}
+	if os.Getenv("VERIF_C19_DEV") == "" && (cnt.classes["stmt addpath -"] == 0 || cnt.classes["stmt import unavailable"] == 0 || cnt.classes["body run late"] == 0) {
+		common.Inconclusive("property=C19 vacuous run: no module became available late")
 	}
 	raised := 0
 	for c, n := range cnt.classes {
